@@ -26,6 +26,8 @@ CASE_TYPE = "variant * list element * obs"
 TAG_VIS = "repeated-section-visibility"
 TAG_DIMS = "clause-dimensions-override-declarator-dimensions"
 TAG_IMP = "import-list-tail-joined"
+TAG_REDECL = "redeclare-in-component-modification"
+PROBE_REDECL = "model P extends B(a = 1, redeclare Real x, c = 2); Real z; end P;"
 VIS = {"unl": 0, "pro": 1, "pub": 2}          # ast.Visibility: unlabelled elements are PRIVATE = 0
 
 
@@ -115,9 +117,40 @@ class Gen:
         return {"name": name, "mod": {"cm": self.args(depth - 1),
                                       "val": self.expr(1) if r.random() < 0.3 else None}}
 
+    def redecl(self, depth):
+        """element redeclaration inside a modification: `redeclare Real x(start = 1) = 3` or `redeclare model N = K`"""
+        r = self.r
+        if r.random() < 0.2:
+            self.hit("redeclare_short_class")
+            return {"k": "short", "ctype": r.choice(["model", "record", "connector"]), "name": "R" + r.choice(NAMES),
+                    "target": r.choice([["K"], ["Pk", "K2"]])}
+        self.hit("redeclare_component")
+        pre = [r.choice(["parameter", "constant", "input", "output"])] if r.random() < 0.3 else []
+        x = r.random()
+        if x < 0.4:
+            m = None
+        elif x < 0.6:
+            m = {"cm": None, "val": self.expr(1)}
+        elif x < 0.8:
+            m = {"cm": self.args_with_redecl(depth - 1, self.redecl_p * 0.2) if depth > 0 else [], "val": None}
+        else:
+            m = {"cm": self.args_with_redecl(depth - 1, self.redecl_p * 0.2) if depth > 0 else [], "val": self.expr(1)}
+        return {"k": "redecl", "prefixes": pre, "type": r.choice(TYPES), "name": r.choice(NAMES),
+                "dims": self.dims() if r.random() < 0.2 else None, "mod": m,
+                "comment": r.choice(["", "", "rc"])}
+
+    redecl_p = 0.0      # probability that an argument is a redeclaration (set per argument list owner)
+
     def args(self, depth):
         n = self.r.choice([0, 1, 1, 2, 2, 3])
-        return [self.arg(depth) for _ in range(n)]
+        return [self.redecl(depth) if self.r.random() < self.redecl_p else self.arg(depth) for _ in range(n)]
+
+    def args_with_redecl(self, depth, p):
+        old, self.redecl_p = self.redecl_p, p
+        try:
+            return self.args(depth)
+        finally:
+            self.redecl_p = old
 
     def decl_mod(self):
         r = self.r
@@ -127,11 +160,13 @@ class Gen:
         if x < 0.6:
             self.hit("decl_value")
             return {"cm": None, "val": self.expr(2)}
+        # rarely a component modification with redeclarations (oracle only: not modelled, see has_comp_redecl)
+        p = 0.35 if r.random() < 0.04 else 0.0
         if x < 0.8:
             self.hit("decl_classmod")
-            return {"cm": self.args(2), "val": None}
+            return {"cm": self.args_with_redecl(2, p), "val": None}
         self.hit("decl_classmod_and_value")
-        return {"cm": self.args(2), "val": self.expr(2)}
+        return {"cm": self.args_with_redecl(2, p), "val": self.expr(2)}
 
     # ---- trailing comment: description string and / or annotation ---------------------------------
     ANNS = ["annotation(Evaluate = true)", "annotation(Documentation(info = \"d\"))",
@@ -207,7 +242,7 @@ class Gen:
                     els.append(self.clause(name_src))
                 elif x < 0.74:
                     self.hit("extends")
-                    a = self.args(1) if r.random() < 0.5 else None
+                    a = self.args_with_redecl(2, 0.4 if r.random() < 0.5 else 0.0) if r.random() < 0.6 else None
                     if a:
                         self.hit("extends_with_modification")
                     els.append({"k": "ext", "path": r.choice([["Base"], ["Pk", "Base"], ["B2"]]), "args": a,
@@ -317,6 +352,15 @@ class Printer:
         return s
 
     def arg(self, a):
+        if a.get("k") == "short":
+            return "redeclare %s %s = %s" % (a["ctype"], a["name"], ".".join(a["target"]))
+        if a.get("k") == "redecl":
+            t = "redeclare " + " ".join(a["prefixes"] + [".".join(a["type"])]) + " " + a["name"]
+            if a["dims"] is not None:
+                t += self.dims(a["dims"])
+            if a["mod"] is not None:
+                t += self.mod(a["mod"])
+            return t + (' "%s"' % a["comment"] if a["comment"] else "")
         return a["name"] + (self.mod(a["mod"]) if a["mod"] is not None else "")
 
     def dims(self, d):
@@ -388,6 +432,12 @@ def show_args(args):
 
 
 def show_arg(a):
+    if a.get("k") == "short":
+        return "redeclare-short{%s|%s|%s}" % (a["ctype"], a["name"], ".".join(a["target"]))
+    if a.get("k") == "redecl":
+        dims = [[x[1] for x in a["dims"]]] if a["dims"] is not None else [["None"]]
+        return "redeclare{%s|%s|%s|%s|%s|%s}" % (" ".join(a["prefixes"]), ".".join(a["type"]), a["name"],
+                                                 ";".join(",".join(g) for g in dims), expect_cm(a["mod"]), a["comment"])
     mods = []
     if a["mod"] is not None:
         if a["mod"]["cm"] is not None:
@@ -480,9 +530,66 @@ def last_of_label(c_items, it):
     return not later
 
 
+def mod_has_redecl(m):
+    return m is not None and any(a.get("k") in ("redecl", "short") or mod_has_redecl(a.get("mod")) for a in (m["cm"] or []))
+
+
+def args_nested_redecl(args):
+    """a redeclaration inside the modification of a redeclared component, at any depth"""
+    for a in args or []:
+        m = a.get("mod")
+        if a.get("k") == "redecl" and mod_has_redecl(m):
+            return True
+        if m is not None and args_nested_redecl(m["cm"]):
+            return True
+    return False
+
+
+def comp_redecl_classes(f):
+    """paths of the classes with a redeclaration inside the modification of a COMPONENT: a declared one, or one that
+    is itself redeclared inside an extends clause (there component_clause1 clobbers comp_clause / symbol_node of the
+    declaration being modified).  Not modelled: oracle only."""
+    out = set()
+
+    def rec(c, path):
+        for it in c["items"]:
+            if it[0] == "sec":
+                for e in it[2]:
+                    if e["k"] == "comp" and any(mod_has_redecl(d["mod"]) for d in e["decls"]):
+                        out.add(tuple(path))
+                    elif e["k"] == "ext" and args_nested_redecl(e["args"]):
+                        out.add(tuple(path))
+                    elif e["k"] == "cls":
+                        rec(e["cls"], path + [e["cls"]["name"]])
+    for c in f:
+        rec(c, [c["name"]])
+    return out
+
+
 def judge(f, res):
-    """-> list of (tag, description).  Known deviations of the unrepaired code get their narrow tag only when
-    the observed value is exactly what that defect produces; anything else is 'structure-mismatch'."""
+    """-> list of (tag, description); 'structure-mismatch' unless the deviation is exactly one of the recorded
+    defects.  TAG_REDECL: the file has a class of comp_redecl_classes and either the parse dies with AttributeError /
+    KeyError, or a duplicate-free text is rejected as 'already defined', or the symbol table / an extends clause / a
+    component's modification of that very class is not the declared one (then the listener state is corrupted and
+    every mismatch of the file carries the tag)."""
+    out = judge0(f, res)
+    leaky = comp_redecl_classes(f)
+    if leaky and out:
+        if out[0][0] == "parse-raised" and res.get("exc") in ("AttributeError", "KeyError"):
+            return [(TAG_REDECL, out[0][1])]
+        if out[0][0] == "spurious-rejection" and res["err"][2] == "already defined":
+            return [(TAG_REDECL, out[0][1])]
+        pre = [".".join(p_) for p_ in leaky]
+        hit = any(t == "structure-mismatch" and any(
+            w.startswith(q + ": symbols ") or w.startswith(q + ": extends ") or
+            (w.startswith(q + ".") and ": cm is " in w)
+            for q in pre) for t, w in out)
+        if hit:
+            return [(TAG_REDECL if t == "structure-mismatch" else t, w) for t, w in out]
+    return out
+
+
+def judge0(f, res):
     if "crash" in res or "exc" in res:
         return [("parse-raised", "parse raised / crashed: %s" % json.dumps(res)[:200])]
     exp = expect(f)
@@ -651,6 +758,12 @@ def cq_mod(m):
 
 
 def cq_arg(a):
+    if a.get("k") == "short":
+        return "(AShort %s %s %s)" % (cq_str(a["ctype"]), cq_str(a["name"]), cq_ls(a["target"]))
+    if a.get("k") == "redecl":
+        return "(ARedecl %s %s %s %s %s %s)" % (cq_ls(a["prefixes"]), cq_ls(a["type"]), cq_str(a["name"]), cq_dims(a["dims"]),
+                                                 core.cq_opt(cq_mod(a["mod"]) if a["mod"] is not None else None),
+                                                 cq_str(a["comment"]))
     return "(Arg %s %s)" % (cq_str(a["name"]), core.cq_opt(cq_mod(a["mod"]) if a["mod"] is not None else None))
 
 
@@ -798,8 +911,15 @@ def run(ctx):
     n_corpus = len(files)
     for _ in range(ctx.scaled(300, 3000)):
         files.append(g.file())
-    cases = [{"text": pr.file(f)} for f in files]
+    cases = [{"text": PROBE_REDECL}] + [{"text": pr.file(f)} for f in files]
     results = core.run_child(ctx, "c04", cases, timeout=3000)
+    # does exitComponent_clause1 restore symbol_node (repair of TAG_REDECL)?  z gets order 2 then, 3 otherwise
+    try:
+        restore = results[0]["classes"][0]["symbols"][0]["order"] == 2
+    except (KeyError, IndexError, TypeError):
+        restore = False
+    ctx.notes["code_variant"] = {"v_redecl": restore}
+    cases, results = cases[1:], results[1:]
     # (a) oracle
     n_rej = 0
     distinct = set()
@@ -811,10 +931,13 @@ def run(ctx):
         if sum(len(e["decls"]) for cl in f for it in cl["items"] if it[0] == "sec" for e in it[2] if e["k"] == "comp") >= 2:
             distinct.add(c["text"])
     # (b) correspondence
-    cqv = "head_variant"
-    idx = [i for i, r in enumerate(results) if encodable(r)]
+    cqv = "(mkV true true true %s)" % cq_bool(restore)
+    # redeclarations inside COMPONENT modifications are not modelled: oracle only
+    n_skip = sum(1 for f in files if comp_redecl_classes(f))
+    ctx.notes["oracle_only_cases"] = n_skip
+    idx = [i for i, r in enumerate(results) if encodable(r) and not comp_redecl_classes(files[i])]
     bad = eval_cases(ctx, "listener", [(cqv, files[i], results[i]) for i in idx])
-    not_enc = [i for i, r in enumerate(results) if not encodable(r)]
+    not_enc = [i for i, r in enumerate(results) if not encodable(r) and not comp_redecl_classes(files[i])]
     ok = bad == [] and not not_enc
     ctx.oblige("correspondence:model-vs-ASTListener", ok,
                "mismatching cases %s; not observable %s" % (None if bad is None else [idx[j] for j in bad[:10]], not_enc[:5]))
